@@ -71,9 +71,20 @@ class C06(E1Prop):
 
     def gen_config(self, rng, tier):
         cfg = super().gen_config(rng, tier)
-        if rng.random() < 0.12:
+        r = rng.random()
+        if r < 0.12:
             cfg['settings']['pr_author_options'] = {
                 'alice': ['bypass_build_status']}
+        elif r < 0.3:
+            # several authors with different bypass lists, in any order
+            items = [('alice', rng.choice([['bypass_build_status'],
+                                           ['bypass_jira_check'], []])),
+                     ('bob', rng.choice([['bypass_build_status'],
+                                         ['bypass_peer_approval'], []])),
+                     ('carol', rng.choice([['bypass_build_status',
+                                            'bypass_author_approval'], []]))]
+            rng.shuffle(items)
+            cfg['settings']['pr_author_options'] = dict(items)
         if rng.random() < 0.08:
             cfg['cmd_line_options'] = cfg['cmd_line_options'] + [
                 'bypass_build_status']
